@@ -11,7 +11,8 @@
      gendef_*, *_old          the rule before the repair of pfsoln (static PD/QD at generator buses) and of the DC shunt results
    Injection s = V_k conj((Ybus V)_k) and |V_k| = v are arbitrary rationals (the solver is an oracle). *)
 From Coq Require Import ZArith QArith Qabs List Bool.
-From PPV Require Import Base.QN Base.QC C01.Model C01.Proofs C01.Balance C01.YbusModel C01.Ybus.
+From PPV Require Import Base.QN Base.QC C01.Model C01.Proofs C01.Balance C01.YbusModel C01.Ybus C01.BranchModel C01.Branch.
+From PPV Require C31.Model C02.Model C02.Run C02.Proofs.     (* the branch model, names written qualified *)
 Import ListNotations.
 Open Scope Q_scope.
 
@@ -199,3 +200,79 @@ Example C01_nonvacuous :
   mism_p ok_net 1 wit_v (Copp (Sload ok_net 1 wit_v)) == 0 /\ mism_q ok_net 1 wit_v (Copp (Sload ok_net 1 wit_v)) == 0.
 Proof. exact ok_net_guard. Qed.
 Print Assumptions C01_nonvacuous.
+
+(* ================================================================ composed statement on the C02 branch model
+   rows -> stamps -> flows -> nodal sum.  The two-port entries of C01_flow_sum_identity are no longer inputs: a branch is a
+   ppc branch row of C02/Model.v (prow: from/to bus, row, e^{j SHIFT}; rows come from line_branch, trafo_branch,
+   impedance_branch, xward_branch, switch_branch and the trafo3w blocks), branch_of stamps it with the C02 model of
+   makeYbus.branch_vectors, row_flow_sum adds the terminal flows of the C02 model of pfsoln (MVA).
+   For every list of rows, bus shunt, voltage vector, base power and bus: *)
+Theorem C01_flow_sum_identity_rows : forall ps ysh V sn k,
+  Cscale sn (s_inj (map branch_of ps) ysh V k)
+  ==c Cadd (row_flow_sum ps V sn k) (Cscale (sn * cnorm2 (vat V k)) (Cconj ysh)).
+Proof. exact rows_flow_sum_identity. Qed.
+Print Assumptions C01_flow_sum_identity_rows.
+(* rows built from element models (build_rows: every element model and every stamp returns without an exception;
+   out-of-service rows are dropped as in ppc -> ppci): the built rows are in service, stamped by [stamps] itself, and
+   satisfy the identity *)
+Theorem C01_built_rows_balance : forall es ps ysh V sn k,
+  build_rows es = C02.Model.Ok ps ->
+  Forall (fun p => C02.Model.b_stat (pr_row p) = true /\ C02.Model.stamps (pr_row p) (pr_e p) = C02.Model.Ok (stamps_of p)) ps /\
+  Cscale sn (s_inj (map branch_of ps) ysh V k)
+  ==c Cadd (row_flow_sum ps V sn k) (Cscale (sn * cnorm2 (vat V k)) (Cconj ysh)).
+Proof. intros. split; [eapply built_rows_ok; eassumption | eapply built_rows_flow_sum_identity; eassumption]. Qed.
+Print Assumptions C01_built_rows_balance.
+(* continued to physical units with C02_pu_eq_physical: the injection is the sum of the terminal powers of the rows'
+   documented circuits (ideal transformer TAP e^{j SHIFT}, pi two-port in Ohm / Siemens on kV voltages) *)
+Theorem C01_rows_nodal_sum_physical : forall ps ysh V sn k, Forall (row_ok sn) ps ->
+  Cscale sn (s_inj (map branch_of ps) ysh V k)
+  ==c Cadd (phys_flow_sum ps V sn k) (Cscale (sn * cnorm2 (vat V k)) (Cconj ysh)).
+Proof. exact rows_nodal_sum_physical. Qed.
+Print Assumptions C01_rows_nodal_sum_physical.
+(* element level, a network of lines: per-km data -> _calc_line_parameter row -> stamps -> flows -> nodal sum equals the
+   sum of the documented line pi circuits (Z = (r'+jx') l/parallel, Y = (g' + j 2 pi f c') l parallel) at the bus *)
+Theorem C01_lines_nodal_sum_documented : forall sn fhz pi sqrt3 ls ysh V k, ~ sn == 0 -> Forall line_ok ls ->
+  Cscale sn (s_inj (map branch_of (map (line_prow sn fhz pi sqrt3) ls)) ysh V k)
+  ==c Cadd (line_flow_sum fhz pi ls V k) (Cscale (sn * cnorm2 (vat V k)) (Cconj ysh)).
+Proof. exact lines_nodal_sum_documented. Qed.
+Print Assumptions C01_lines_nodal_sum_documented.
+(* the balance formulas end to end on the C02 rows: [flows n k v s], the quantity of C01_imbalance_formula_p/q, is the sum of the
+   terminal flows of the C02 rows at k when s is the injection of the Ybus assembled from these rows; hence
+   reported consumption - reported generation + branch flows of the rows = Newton mismatch - ZIP-averaging defect *)
+Theorem C01_flows_are_row_flows : forall n ps V k v,
+  ~ base n == 0 -> v * v == cnorm2 (vat V k) ->
+  flows n k v (s_inj (map branch_of ps) (mkC (qdiv (GS n k) (base n)) (qdiv (BS n k) (base n))) V k)
+  ==c row_flow_sum ps V (base n) k.
+Proof. exact flows_is_row_flow_sum. Qed.
+Print Assumptions C01_flows_are_row_flows.
+Theorem C01_rows_imbalance_p : forall n ref ps V k v,
+  ~ base n == 0 -> v * v == cnorm2 (vat V k) -> (memn k ref && has_gen n k) = false ->
+  let s := s_inj (map branch_of ps) (mkC (qdiv (GS n k) (base n)) (qdiv (BS n k) (base n))) V k in
+  resid_p n ref k v s (row_flow_sum ps V (base n) k) == mism_p n k v s - zipdef_p n k v.
+Proof. exact rows_imbalance_p. Qed.
+Print Assumptions C01_rows_imbalance_p.
+Theorem C01_rows_imbalance_q : forall n ps V k v,
+  ~ base n == 0 -> v * v == cnorm2 (vat V k) -> has_gen n k = false ->
+  let s := s_inj (map branch_of ps) (mkC (qdiv (GS n k) (base n)) (qdiv (BS n k) (base n))) V k in
+  resid_q n k v s (row_flow_sum ps V (base n) k) == mism_q n k v s - zipdef_q n k v.
+Proof. exact rows_imbalance_q. Qed.
+Print Assumptions C01_rows_imbalance_q.
+(* non-vacuity: two lines 0-1, 1-2 (20 kV, sn = 10) and an out-of-service row build two in-service rows that satisfy
+   row_ok; the flow sum at bus 1 is not trivially zero *)
+Definition ex_line : C02.Model.line :=
+  C02.Model.Build_line (1 # 4) (1 # 2) 10 0 2 1 true (Some 100) (1 # 2) 1 None.
+Definition ex_es : list (nat * nat * C02.Model.res C02.Model.brow * C * Q) :=
+  [(0%nat, 1%nat, C02.Model.Ok (C02.Model.line_branch 10 50 (355 # 113) (19 # 11) 20 20 ex_line), C1, 20);
+   (1%nat, 2%nat, C02.Model.Ok (C02.Model.line_branch 10 50 (355 # 113) (19 # 11) 20 20 ex_line), C1, 20);
+   (0%nat, 2%nat, C02.Model.Ok (C02.Model.xward_branch 10 20 1 4 false), C1, 20)].
+Example C01_rows_nonvacuous :
+  exists ps, build_rows ex_es = C02.Model.Ok ps /\ length ps = 2%nat /\ Forall (row_ok 10) ps /\
+             ~ row_flow_sum ps [C1; mkC (99 # 100) (-1 # 100); mkC (49 # 50) (-1 # 50)] 10 1 ==c C0 /\
+             Forall line_ok [mkL 0 1 ex_line 20 20; mkL 1 2 ex_line 20 20].
+Proof.
+  eexists. split; [vm_compute; reflexivity|]. split; [reflexivity|].
+  split; [repeat constructor; vm_compute; try reflexivity; discriminate|].
+  split; [vm_compute; intros [_ H]; discriminate H|].
+  repeat constructor; vm_compute; try reflexivity; discriminate.
+Qed.
+Print Assumptions C01_rows_nonvacuous.
